@@ -11,8 +11,10 @@ RULE = ("stream system judged by `kmodel sysobjects C03`: seeded histories (obje
         "revocations/object sets/sync delta run in lock-step; distinct_nontrivial counts distinct (op kind, model branches) pairs")
 
 DUE = ["before_next=30", "next_hours=24"]
-QUICK = [("default", 14, 16, []), ("roll", 10, 20, ["profile=roll"]), ("due", 6, 14, DUE)]
-THOROUGH = [("default", 300, 36, []), ("roll", 260, 40, ["profile=roll"]), ("due", 120, 30, DUE)]
+QUICK = [("default", 10, 16, []), ("maint", 6, 16, ["profile=maint"]), ("roll", 8, 20, ["profile=roll"]),
+         ("rollmaint", 4, 20, ["profile=roll,maint"]), ("due", 4, 14, DUE + ["profile=maint"])]
+THOROUGH = [("default", 240, 36, []), ("maint", 160, 36, ["profile=maint"]), ("roll", 240, 40, ["profile=roll"]),
+            ("rollmaint", 120, 40, ["profile=roll,maint"]), ("due", 120, 30, DUE + ["profile=maint"])]
 
 ASSUME = [
     "expiry-based removal from the CRL (remove_expired) is modelled with an explicit clock; no object expires during a run",
